@@ -102,6 +102,7 @@ type Model struct {
 	evictMin     int
 	evictMax     int
 	newAnon      []*Msg // enqueued without explicit id: id to be adopted
+	fresh        map[*Msg]bool // inserted by the operation being compared
 
 	// LiftedAboveDepth: an operator requeue/resume took the active count above
 	// max_depth; the depth clauses of C12 exclude such histories until the
@@ -231,7 +232,7 @@ func errClass(err error) string {
 	return "other:" + err.Error()
 }
 
-func (m *Model) memPressure() bool {
+func (m *Model) memPressure(excl map[*Msg]bool) bool {
 	if m.Cfg.Backend != "memory" {
 		return false
 	}
@@ -249,6 +250,9 @@ func (m *Model) memPressure() bool {
 	var items int
 	var size int64
 	for _, x := range m.Msgs {
+		if excl[x] {
+			continue
+		}
 		switch x.State {
 		case queue.StateDelivered, queue.StateDead, queue.StateCanceled:
 			items++
@@ -265,6 +269,56 @@ func (m *Model) memPressure() bool {
 		return true
 	}
 	return bytesLimit > 0 && size >= bytesLimit
+}
+
+// fullPruneSet: what one complete retention pass at `now` would remove.
+func (m *Model) fullPruneSet(now time.Time) map[*Msg]bool {
+	out := map[*Msg]bool{}
+	if !m.Cfg.pruneConfigured() {
+		return out
+	}
+	var dead []*Msg
+	for _, x := range m.Msgs {
+		if m.pruneEligible(x, now) {
+			out[x] = true
+		} else if x.State == queue.StateDead {
+			dead = append(dead, x)
+		}
+	}
+	if m.Cfg.DLQMaxDepth > 0 && len(dead) > m.Cfg.DLQMaxDepth {
+		sort.Slice(dead, func(i, j int) bool { return dead[i].ReceivedAt.Before(dead[j].ReceivedAt) })
+		for _, x := range dead[:len(dead)-m.Cfg.DLQMaxDepth] {
+			out[x] = true
+		}
+	}
+	return out
+}
+
+type depthView struct {
+	active, activeDelivered, queued int
+	pressure                        bool
+}
+
+func (m *Model) view(excl map[*Msg]bool) depthView {
+	var v depthView
+	for _, x := range m.Msgs {
+		if excl[x] {
+			continue
+		}
+		switch x.State {
+		case queue.StateQueued:
+			v.queued++
+			v.active++
+			v.activeDelivered++
+		case queue.StateLeased:
+			v.active++
+			v.activeDelivered++
+		case queue.StateDelivered:
+			v.activeDelivered++
+		}
+	}
+	v.pressure = m.memPressure(excl)
+	return v
 }
 
 // depthNeed returns how many queued messages would have to be evicted to admit
@@ -313,6 +367,10 @@ func (m *Model) newMsg(now time.Time, env queue.Envelope) *Msg {
 func (m *Model) insert(x *Msg) {
 	m.seq++
 	x.Seq = m.seq
+	if m.fresh == nil {
+		m.fresh = map[*Msg]bool{}
+	}
+	m.fresh[x] = true
 	if x.ID == "" {
 		m.newAnon = append(m.newAnon, x)
 		return
@@ -354,30 +412,28 @@ func (m *Model) Enqueue(now time.Time, envs []queue.Envelope, batch bool, n int,
 			dup = true
 		}
 	}
-	pressure := m.memPressure()
-
-	active := m.Active()
-	activeDelivered := active + m.count(queue.StateDelivered)
-	queued := m.count(queue.StateQueued)
-	prunableQ := 0
-	if m.Cfg.pruneConfigured() {
-		prunableQ = m.prunableQueued(now)
+	// the call may or may not have run a retention pass first: judge against
+	// both pictures (hi = nothing pruned, lo = one full pass)
+	hi := m.view(nil)
+	lo := hi
+	if ps := m.fullPruneSet(now); len(ps) > 0 {
+		lo = m.view(ps)
+		m.Stats.AmbiguousDepth++
 	}
-	lifted := m.Cfg.MaxDepth > 0 && active > m.Cfg.MaxDepth
-	// without / with a prune having run first
-	needHi := m.depthNeed(active, activeDelivered, len(envs))
-	needLo := m.depthNeed(active-prunableQ, activeDelivered-prunableQ, len(envs))
+	active, queued := hi.active, hi.queued
+	lifted := m.Cfg.MaxDepth > 0 && lo.active > m.Cfg.MaxDepth
+	needHi := m.depthNeed(hi.active, hi.activeDelivered, len(envs))
+	needLo := m.depthNeed(lo.active, lo.activeDelivered, len(envs))
 	fullHi, fullLo := false, false
 	if m.Cfg.DropPolicy == "drop_oldest" {
-		fullHi = needHi > queued
-		fullLo = needLo > queued-prunableQ
+		fullHi = needHi > hi.queued
+		fullLo = needLo > lo.queued
 	} else {
 		fullHi = needHi > 0
 		fullLo = needLo > 0
 	}
-	if prunableQ > 0 && (fullHi != fullLo || needHi != needLo) {
-		m.Stats.AmbiguousDepth++
-	}
+	pressure := hi.pressure && lo.pressure
+	pressureAny := hi.pressure || lo.pressure
 
 	cls := errClass(err)
 	if err != nil {
@@ -394,7 +450,7 @@ func (m *Model) Enqueue(now time.Time, envs []queue.Envelope, batch bool, n int,
 				vs = append(vs, viol("C12.refused.nodup", "C12,C02", "%s refused as duplicate but no id collides", op))
 			}
 		case "pressure":
-			ok = pressure
+			ok = pressureAny
 			if !ok {
 				vs = append(vs, viol("C12.refused.nopressure", "C12", "%s refused for memory pressure without pressure", op))
 			}
@@ -1032,6 +1088,7 @@ func (m *Model) CompareListing(now time.Time, opDesc string, items []queue.Envel
 	sweepAllowed := m.sweepAllowed
 	evictMin, evictMax := m.evictMin, m.evictMax
 	m.sweepAllowed, m.evictMin, m.evictMax = false, 0, 0
+	defer func() { m.fresh = nil }()
 
 	obs := map[string]queue.Envelope{}
 	for _, it := range items {
@@ -1148,7 +1205,7 @@ func (m *Model) explainVanished(now time.Time, opDesc string, vanished []*Msg, o
 		if x.State == queue.StateDead {
 			deadSurvivors = append(deadSurvivors, x)
 		}
-		if x.State == queue.StateQueued {
+		if x.State == queue.StateQueued && !m.fresh[x] {
 			queuedSurvivors = append(queuedSurvivors, x)
 		}
 	}
@@ -1211,7 +1268,14 @@ func (m *Model) explainVanished(now time.Time, opDesc string, vanished []*Msg, o
 			}
 		}
 		if !bySeq && !byRecv {
-			vs = append(vs, viol("C12.evicted.notoldest", "C12", "after %s: drop_oldest evicted %s although an older queued message survives", opDesc, victims[0].ID))
+			v := viol("C12.evicted.notoldest", "C12", "after %s: drop_oldest evicted %s although an older queued message survives", opDesc, victims[0].ID)
+			for _, x := range victims {
+				if m.Reused[x.ID] {
+					// the victim carries an id that an earlier, removed message had used
+					v.Loc = m.Cfg.Backend + "/drop_oldest/victim-reused-id"
+				}
+			}
+			vs = append(vs, v)
 		}
 	}
 	for _, x := range vanished {
